@@ -38,12 +38,22 @@ package push
 // b.messages: client id -> *sync.Map (topic -> *MessageCache, or nil after Deny); both levels are
 // modelled by the ghost dictionaries of the sync.Map contracts (sequential view per operation).
 
-// (assumed) waking the poller: may move messages from caches to a responder, never adds any
-//@ ghost woken int
+// waking the poller: takes the client's registered responder (if any) and hands it to send; a
+// responder that got nothing is put back, or told to give up when a newer one is registered
 //@ func (*Broker).response
+//@   prop C19
+//@   flag typeassert=panic
 //@   havoc
+//@   requires b != nil
+//@   stable b.responders
 //@   modifies ghost.*
-//@   ensures ghost.woken == old(ghost.woken) + 1
+//@   ensures [at_most_one_responder_is_taken_and_it_is_served_or_put_back] calls(Pop) == 1 && calls(send) <= 1
+//@   let R = ival(ghost.cm_val[arr(b.responders)][str(id)])
+//@   ensures [a_registered_responder_is_always_handed_to_send] old(ghost.cm_has[arr(b.responders)][str(id)]) ==> calls(send) == 1
+//@   ensures [a_taken_responder_is_served_put_back_or_told_to_give_up_never_dropped] old(ghost.cm_has[arr(b.responders)][str(id)]) ==>
+//@       ghost.chansent[R] == old(ghost.chansent[R]) + 1 || (ghost.cm_has[arr(b.responders)][str(id)] && ival(ghost.cm_val[arr(b.responders)][str(id)]) == R)
+//@   atcall send [the_batch_goes_to_the_responder_that_was_registered_for_this_client] arg2 == id && arg3 == as(old(ghost.cm_val[arr(b.responders)][str(id)]), chan map[string][]Message)
+//@   atcall SetIfAbsent [a_responder_that_got_nothing_is_put_back_for_the_same_client] arg1 == id && ival(arg2) == ival(old(ghost.cm_val[arr(b.responders)][str(id)])) && calls(send) == 1
 
 //@ func (*Broker).Unicast
 //@   prop C19
@@ -61,7 +71,7 @@ package push
 //@   atcall response [the_right_poller_is_woken] arg2 == id
 //@   ensures [accepted_iff_subscribed_and_not_denied] result == (old(ghost.sm_has[addr(b.messages)][str(id)]) && old(ghost.sm_has[T][str(topic)]) && old(ghost.sm_val[T][str(topic)]) != nil)
 //@   ensures [a_refused_message_is_stored_nowhere] !result ==> len(C.m) == old(len(C.m))
-//@   ensures [the_poller_is_woken_once_per_accepted_message] ghost.woken == old(ghost.woken) + ite(result, 1, 0)
+//@   ensures [stored_once_and_the_poller_woken_once_per_accepted_message] calls(Append) == ite(result, 1, 0) && calls(response) == ite(result, 1, 0)
 
 // ---- polling: a poll that gives up must not leave its responder behind --------------------------
 //
@@ -155,7 +165,7 @@ package push
 //@   flag typeassert=panic
 //@   havoc
 //@   results cont
-//@   requires result != nil
+//@   requires b != nil && result != nil
 //@   stable result
 //@   requires [topic_tables_hold_caches_or_nil] ghost.sm_val[ival(value)][str(topic)] != nil ==> as(ghost.sm_val[ival(value)][str(topic)], *MessageCache) != nil
 //@   modifies ghost.*
@@ -167,4 +177,4 @@ package push
 //@   ensures [every_client_is_visited] cont
 //@   ensures [reported_accepted_iff_subscribed_and_not_denied] haskey(result, id) &&
 //@       result[id] == (old(ghost.sm_has[ival(value)][str(topic)]) && old(ghost.sm_val[ival(value)][str(topic)]) != nil)
-//@   ensures [the_poller_is_woken_once_per_accepted_message] ghost.woken == old(ghost.woken) + ite(result[id], 1, 0)
+//@   ensures [stored_once_and_the_poller_woken_once_per_accepted_message] calls(Append) == ite(result[id], 1, 0) && calls(response) == ite(result[id], 1, 0)
